@@ -104,13 +104,15 @@ impl From<&str> for Ws { fn from(v: &str) -> Self { Ws(v.len(), v.as_bytes()[0])
 #[derive(PartialEq, Debug)] pub struct Wb(pub u8);
 impl From<bool> for Wb { fn from(v: bool) -> Self { Wb(if v { 7 } else { 9 }) } }
 #[derive(PartialEq, Debug)] pub struct Wbs(pub u8);
+#[derive(PartialEq, Debug, Default)] pub struct Ws0(pub u8);
+impl From<&str> for Ws0 { fn from(v: &str) -> Self { Ws0(77 + v.len() as u8) } }
 impl From<&[u8; 2]> for Wbs { fn from(v: &[u8; 2]) -> Self { Wbs(v[0] ^ v[1]) } }
 '''
 LITS = [
     ('5', 'u8', '5u8'), ('5', 'i64', '5i64'), ('5', 'Wi', 'Wi(1005)'), ('5u16', 'u16', '5u16'), ('5u16', 'Wi', 'Wi(2005)'), ('5u16', 'u32', '5u32'),
     ('1.5', 'f64', '1.5f64'), ('1.5', 'f32', '1.5f32'), ('1.5', 'Wf', 'Wf(2.0)'), ('1.5f32', 'f64', '1.5f64'),
     ('"hi"', "&'static str", '"hi"'), ('"hi"', 'Ws', 'Ws(2, 104)'),
-    ('true', 'bool', 'true'), ('true', 'Wb', 'Wb(7)'),
+    ('true', 'bool', 'true'), ('true', 'Wb', 'Wb(7)'), ('false', 'bool', 'false'), ('false', 'Wb', 'Wb(9)'), ('false', 'Option<bool>', 'Some(false)'), ('0', 'Wi', 'Wi(1000)'), ('""', 'Ws0', 'Ws0(77)'),
     ("'c'", 'char', "'c'"), ("'c'", 'u32', '99u32'),
     ("b'x'", 'u8', '120u8'), ("b'x'", 'u16', '120u16'),
     ('b"ab"', "&'static [u8; 2]", 'b"ab"'), ('b"ab"', 'Wbs', 'Wbs(3)'),
@@ -122,7 +124,7 @@ def literal_modules(start, tier):
     mods = []
     n = start
     for li, (lit, ty, want) in enumerate(LITS):
-        forms = LIT_FORMS if tier != 'quick' else [LIT_FORMS[li % 3], LIT_FORMS[(li + 1) % 3]]
+        forms = LIT_FORMS if tier != 'quick' else ([LIT_FORMS[li % 3], LIT_FORMS[(li + 1) % 3]] if lit not in ('false', '0', '""', 'true') else LIT_FORMS[:3])
         for fi, form in enumerate(forms):
             shape = (li + fi) % 3
             attr = '#[educe(Default' + form.format(lit) + ')]'
